@@ -153,6 +153,49 @@ impl Check for C02 {
             let k = tags.iter().zip(tags2.iter()).take_while(|(a, b)| a == b).count();
             fail!("not-a-fixpoint", "tag {}: first read {} but after re-writing {}\n first read:  {}\n second read: {}", k, tags.get(k).map(|t| t.short()).unwrap_or("<end>".into()), tags2.get(k).map(|t| t.short()).unwrap_or("<end>".into()), r1.short(60), r2.short(60));
         }
+        // the same tags written back another way: some masters with unknown size (through either call), some
+        // size fields 8 bytes wide. Histories that land in the zone the properties exclude are not tried.
+        let mut arng = Rng::new(rc.fingerprint() ^ 0xA17E_44A7);
+        let unk_pct = *arng.pick(&[0u64, 30, 70, 100]);
+        let alt: Vec<WOp> = tags
+            .iter()
+            .map(|t| {
+                if t.is_start() && arng.below(100) < unk_pct {
+                    if arng.chance(1, 2) { WOp::WriteUnknownDeprecated(t.clone()) } else { WOp::Write(t.clone(), Opt::Unknown) }
+                } else if !t.is_end() && !matches!(t.val, crate::val::Val::Raw(_)) && arng.chance(1, 6) {
+                    WOp::Write(t.clone(), Opt::Width(8))
+                } else {
+                    WOp::Write(t.clone(), Opt::Default)
+                }
+            })
+            .collect();
+        if alt != ops && !wcases::ambiguous_history(&rc.spec, &alt) {
+            st.inc("probe_alternative_rewrite");
+            let wa = run_writer(&rc.spec, &alt, &WScript::default(), true);
+            if let Some(p) = &wa.panic {
+                fail!("writer-panic", "writing the emitted tags back ({}) panicked: {}", wcases::describe(&alt), p);
+            }
+            if let Some(i) = wa.results.iter().position(|r| r.is_err()) {
+                fail!("writer-rejects-reader-output", "call {} of the re-write {} failed with {:?} although the strict reader emitted these tags
+ read: {}", i, wcases::describe(&alt), wa.results[i], r1.short(60));
+            }
+            if !matches!(wa.into_inner, Some(Ok(()))) {
+                fail!("into-inner-fails", "into_inner() failed with {:?} for the re-write {}", wa.into_inner, wcases::describe(&alt));
+            }
+            let outa = Arc::new(wa.out);
+            let ma = outa.len();
+            let ra = run_reader(&rc.spec, &ReaderSetup { input: outa.clone(), virtual_tail: 0, cfg: &def, script: &RScript::whole(), driver: &Driver::UntilEnd { extra: 0 }, max_steps: 4 * ma + 64, keep_read_log: false });
+            if let Some(p) = ra.panic() {
+                fail!("second-read-panics", "{}", p);
+            }
+            let tagsa: Vec<TagV> = ra.tags().into_iter().map(|(t, _)| t).collect();
+            if ra.first_error().is_some() || tagsa != tags {
+                let k = tags.iter().zip(tagsa.iter()).take_while(|(a, b)| a == b).count();
+                fail!("not-a-fixpoint", "re-written as {}: tag {} was {} on the first read but the second read gives {}
+ first read:  {}
+ second read: {}", wcases::describe(&alt), k, tags.get(k).map(|t| t.short()).unwrap_or("<end>".into()), tagsa.get(k).map(|t| t.short()).or(ra.first_error().map(|e| e.short())).unwrap_or("<end>".into()), r1.short(60), ra.short(60));
+            }
+        }
         let sched = IterCfg { capacity: rc.cfg.capacity, ..Default::default() };
         let r3 = rd(&sched, &rc.script);
         st.add("fault_short_reads", r3.rstats.short_reads);
@@ -176,12 +219,12 @@ impl Check for C02 {
         c.shrink(true)
     }
     fn rule(&self) -> &'static str {
-        "One case = specification + byte stream from (a) the reference encoder with non-canonical choices the writer never makes (integers padded to 0-8 bytes, 4-byte floats, oversized size fields, unknown-size masters closed by a following element or EOF), (b) the real writer's output, (c) byte-faulted or truncated variants of both. In scope iff the strict slice run ends without error and starts at a root element; then every emitted item is written through a fresh TagWriter::write, into_inner must succeed and the strict read of the output must give the identical tag sequence. Non-trivial: in scope with at least 3 items. Distinct: FNV-1a fingerprint of bytes + schedule. counters.in_scope / not_in_scope give the reach."
+        "One case = specification + byte stream from (a) the reference encoder with non-canonical choices the writer never makes (integers padded to 0-8 bytes, 4-byte floats, oversized size fields, unknown-size masters closed by a following element or EOF), (b) the real writer's output, (c) byte-faulted or truncated variants of both. In scope iff the strict slice run ends without error and starts at a root element; then every emitted item is written through a fresh TagWriter::write, into_inner must succeed and the strict read of the output must give the identical tag sequence; the same for a second re-write in which a drawn subset of masters is written with unknown size (option or deprecated call) and some size fields are 8 bytes wide (skipped where that would land in the ambiguous zone the properties exclude). Non-trivial: in scope with at least 3 items. Distinct: FNV-1a fingerprint of bytes + schedule. counters.in_scope / not_in_scope give the reach."
     }
     fn assumptions(&self) -> Vec<&'static str> {
         vec!["self-referential oracle: both reads are the real iterator; what the first read means is C03/C06's subject", "offsets are excluded (encodings legitimately change)"]
     }
     fn expected_probes(&self) -> Vec<&'static str> {
-        vec!["in_scope", "in_scope_byte_faulted", "probe_unknown_size_master_accepted", "probe_oversized_size_field_accepted", "probe_f32_accepted", "probe_padded_or_short_uint_accepted", "probe_padded_or_short_int_accepted", "probe_zero_length_int_accepted"]
+        vec!["in_scope", "in_scope_byte_faulted", "probe_alternative_rewrite", "probe_unknown_size_master_accepted", "probe_oversized_size_field_accepted", "probe_f32_accepted", "probe_padded_or_short_uint_accepted", "probe_padded_or_short_int_accepted", "probe_zero_length_int_accepted"]
     }
 }
